@@ -19,13 +19,12 @@ Theorem Ast_methods_are_source : forall (c : cx) (x : lnode),
   gam_SliceSuffix_is_single_element x = Some (m_is_single_element x) /\
   gam_BangOperator_kind x = Some (m_bang_kind x).
 Proof.
-  intros c x. repeat split.
-  - apply identifier_value_eq.
-  - apply identifier_range_eq.
-  - apply integer_value_eq.
-  - apply string_value_eq.
-  - apply is_single_element_eq.
-  - apply bang_kind_eq.
+  intros c x.
+  split; [exact (identifier_value_eq c x)|].
+  split; [exact (identifier_range_eq c x)|].
+  split; [exact (integer_value_eq x)|].
+  split; [exact (string_value_eq x)|].
+  split; [exact (is_single_element_eq x)|exact (bang_kind_eq x)].
 Qed.
 Print Assumptions Ast_methods_are_source.
 
@@ -47,11 +46,13 @@ Theorem Lib_glue_is_source :
   (forall k, glib_kind_from_raw (glib_kind_to_raw k) = Some k) /\
   (forall raw k, glib_kind_from_raw raw = Some k -> glib_kind_to_raw k = raw) /\
   (forall g es, glib_syntax_node (mk_parse g es) = (0%N, g)) /\
-  (forall g es, glib_source_file (mk_parse g es) = if sk_eqb (kind_of g) S_SourceFile then Some (0%N, g) else None).
+  (forall g es, glib_source_file (mk_parse g es) = if sk_eqb (kind_of g) S_SourceFile then Some (0%N, g) else None) /\
+  (forall g es, glib_errors (mk_parse g es) = es).
 Proof.
-  repeat split.
-  - apply glib_parse_eq.
-  - apply kind_raw_roundtrip.
-  - apply kind_from_raw_inverse.
+  split; [exact glib_parse_eq|].
+  split; [exact kind_raw_roundtrip|].
+  split; [exact kind_from_raw_inverse|].
+  split; [exact syntax_node_root|].
+  split; [exact source_file_cast|reflexivity].
 Qed.
 Print Assumptions Lib_glue_is_source.
